@@ -295,7 +295,7 @@ def gen_rpms03_doc(rng, tier, n):
         kk = next(iter(manifest[v][a]))
         nn = next(iter(manifest[v][a][kk]))
         malformed = rng.choice(["missing-type", "missing-path", "missing-sigkey", "src-missing-path", "src-missing-sigkey", "cell-is-list", "rpms-is-list",
-                                "src-table-is-list", "variant-is-list", "src-path-absolute", "nevra-without-epoch"])
+                                "src-table-is-list", "path-is-null", "path-is-number", "variant-is-list", "src-path-absolute", "nevra-without-epoch"])
         if malformed.startswith("missing-"):
             manifest[v][a][kk][nn].pop(malformed[8:], None)
         elif malformed.startswith("src-missing-"):
@@ -308,7 +308,9 @@ def gen_rpms03_doc(rng, tier, n):
         elif malformed == "src-table-is-list":
             manifest[v]["src"] = []
         elif malformed == "path-is-null":
-            manifest[v][a][kk][nn]["path"] = None
+            manifest[v][a][kk][nn]["path"] = rng.choice([None, "", 0, [], {}, False])
+        elif malformed == "path-is-number":
+            manifest[v][a][kk][nn]["path"] = rng.choice([5, ["x"], True])
         elif malformed == "variant-is-list":
             manifest[v] = []
         elif malformed == "src-path-absolute":
